@@ -113,3 +113,16 @@ class LocalGenSim(LocalSim):
         nk, n = _enc_next(rep.value)
         self.ctx.record({"k": "SE", "s": self.sid, "nk": nk, "n": n, "nodata": self.sid not in self.ctx.has_out})
         return rep.value
+
+
+class LocalSimV2(LocalSim):
+    """The same simulator speaking API version 2.2 (no max_advance argument): mosaik wraps it in its V3ToV2Adapter."""
+
+    def init(self, sid, time_resolution=1.0, **kw):
+        meta = super().init(sid, time_resolution=time_resolution, **kw)
+        meta["api_version"] = "2.2"
+        return meta
+
+    def step(self, time, inputs):  # noqa: D102  (old signature)
+        return LocalSim.step(self, time, inputs, -1)
+
